@@ -160,32 +160,32 @@ theorem gen_blurMaskG_iff (levels l k : Nat) (lod : ℝ) (h2 : 2 ≤ levels) (hl
   have cast_lt : ∀ a b : Nat, a < b → (a : ℝ) + 1 ≤ (b : ℝ) := fun a b hab => by exact_mod_cast hab
   unfold blurMaskG
   simp only [num_ofNat, Nat.cast_add, Nat.cast_one]
-  by_cases hk0 : k = 0
-  · subst hk0
-    simp only [if_true, Nat.cast_zero, zero_add, decide_eq_true_eq]
+  by_cases hkl : k = levels - 1
+  · simp only [hkl, if_true, decide_eq_true_eq]
     constructor
-    · intro hlt
+    · intro hle
       by_contra hne
-      have : 1 ≤ l := Nat.one_le_iff_ne_zero.2 (fun e => hne e.symm)
-      have : (1 : ℝ) ≤ (l : ℝ) := by exact_mod_cast this
+      have hlt : l < levels - 1 := by omega
+      have := h1 (by omega)
+      have := cast_lt l (levels - 1) hlt
       linarith
     · intro e
-      subst e
-      have := h1 (by omega)
-      simpa using this
-  · simp only [hk0, if_false]
-    by_cases hkl : k = levels - 1
-    · simp only [hkl, if_true, decide_eq_true_eq]
+      rw [e]; exact h0
+  · simp only [hkl, if_false]
+    by_cases hk0 : k = 0
+    · subst hk0
+      simp only [if_true, Nat.cast_zero, zero_add, decide_eq_true_eq]
       constructor
-      · intro hle
+      · intro hlt
         by_contra hne
-        have hlt : l < levels - 1 := by omega
-        have := h1 (by omega)
-        have := cast_lt l (levels - 1) hlt
+        have : 1 ≤ l := Nat.one_le_iff_ne_zero.2 (fun e => hne e.symm)
+        have : (1 : ℝ) ≤ (l : ℝ) := by exact_mod_cast this
         linarith
       · intro e
-        rw [e]; exact h0
-    · simp only [hkl, if_false, Bool.and_eq_true, decide_eq_true_eq]
+        subst e
+        have := h1 (by omega)
+        simpa using this
+    · simp only [hk0, if_false, Bool.and_eq_true, decide_eq_true_eq]
       constructor
       · rintro ⟨ha, hb⟩
         by_contra hne
@@ -221,11 +221,12 @@ theorem gen_blurPixelG_eq (levels l : Nat) (lod frac : ℝ) (mip : Nat → ℝ) 
       have : ((l : ℤ) : ℝ) ≤ ((⌊lod⌋ : ℤ) : ℝ) := by exact_mod_cast Int.le_floor.mpr (by exact_mod_cast h0)
       simpa using min_eq_right this
 
-/-- the single-level case (an image one pixel high or wide): the only mask is `lod < 1`; a pixel with `lod ≥ 1` is matched by no
-    level and keeps the initial zero (the model's `mipLevel` would read level 0) -/
-theorem gen_blurPixelG_single_level (lod frac : ℝ) (mip : Nat → ℝ) :
-    blurPixelG 1 lod frac mip = if lod < 1 then mip 0 else 0 := by
-  simp [blurPixelG, blurMaskG, blurBlendedG]
+/-- the single-level case (an image one pixel high or wide): the only level is also the coarsest one, its mask is `0 ≤ lod`, which the
+    clamp of the level-of-detail map guarantees: every pixel is the input pixel.  (Before the repair of finding F39 the only mask was
+    `lod < 1` and a pixel with `lod ≥ 1` was matched by no level and kept the initial zero.) -/
+theorem gen_blurPixelG_single_level (lod frac : ℝ) (mip : Nat → ℝ) (h : 0 ≤ lod) :
+    blurPixelG 1 lod frac mip = mip 0 := by
+  simp [blurPixelG, blurMaskG, blurBlendedG, h]
 
 /-- the mip chain starts with the image itself (level 0 is the input: what "the gaze pixel is left unblurred" rests on), each
     `while` iteration appends a level of half the size (`floor`), and the loop runs while both sides exceed one pixel -/
